@@ -40,6 +40,8 @@ D = {
     '[wl_surface, wl_seat].[commit, capabilities]': ms.pattern(
         C0, _obj('', lambda o: o[0] in ('wl_surface', 'wl_seat')), _name('', lambda n: n in ('commit', 'capabilities')), A0),
     '*': lambda m: True,
+    '(wl_seat)': ms.pattern(C0, O0, N0, ('(wl_seat)', ms.argl([ms.a_word('wl_seat')]))),
+    '("wl_seat")': ms.pattern(C0, O0, N0, ('("wl_seat")', ms.argl([ms.a_str('wl_seat')]))),
 }
 
 # (command text, alternatives, exclusions) ; strings = special
@@ -58,6 +60,10 @@ COMMANDS = [
     ('[wl_surface, wl_seat].[commit, capabilities]', ['[wl_surface, wl_seat].[commit, capabilities]'], []),
     ('x(y)z', 'BAD', None),
     ('(x=0)', ['(x=0)'], []),
+    ('(wl_seat)', ['(wl_seat)'], []),
+    ('("wl_seat")', ['("wl_seat")'], []),
+    ('3é', 'BAD', None),
+    ('! ("wl_seat")', [], ['("wl_seat")']),
 ]
 INITIAL = ['*', '!', 'wl_pointer']
 
@@ -138,17 +144,24 @@ def evaluate(case):
         seq = [COMMANDS[i] for i in case['seq']]
         s = sut.Session(filt=None if init == '*' else init, stop='*' if init == '*' else init)
         reff = RefAcc(init)
+        refb = RefAcc(init)
+        # `rotate`: the breakpoint gets the same commands in rotated order, so filter and breakpoint differ
+        bseq = seq[1:] + seq[:1] if case.get('rotate') else seq
         o, _ = s.cmd('filter')
         prev_f = printed_matcher(o, 'Output filter: ')
         o, _ = s.cmd('breakpoint')
         prev_b = printed_matcher(o, 'Breakpoint matcher: ')
-        for cmd in seq:
+        for cmd, bcmd in zip(seq, bseq):
             text = cmd[0]
             before = reff.key()
             reff.step(cmd)
+            refb.step(bcmd)
             of, ef = s.cmd('filter ' + text)
-            ob, eb = s.cmd('breakpoint ' + text)
-            step = {'command': text}
+            ob, eb = s.cmd('breakpoint ' + bcmd[0])
+            step = {'command': text, 'breakpoint_command': bcmd[0]}
+            if case.get('rotate'):
+                # only the selections are compared in this mode (confirmation lines are judged in the plain mode)
+                continue
             if cmd[1] == 'SHOW':
                 cur_f = printed_matcher(of, 'Output filter: ')
                 cur_b = printed_matcher(ob, 'Breakpoint matcher: ')
@@ -191,11 +204,28 @@ def evaluate(case):
             if sel_f[i] != want:
                 V.append(Violation('accumulate.filter', case, {'message': v.line, 'expected_shown': want, 'reference': reff.key()}))
                 break
-            if sel_b[i] != want:
-                V.append(Violation('accumulate.breakpoint', case, {'message': v.line, 'expected_stop': want, 'reference': reff.key()}))
+        for i, v in enumerate(views):
+            want = refb.selects(v)
+            if want is not None and sel_b[i] != want:
+                V.append(Violation('accumulate.breakpoint', case, {'message': v.line, 'expected_stop': want, 'reference': refb.key()}))
                 break
         if len(listed) != sum(sel_f):
             V.append(Violation('accumulate.list_differs_from_live', case, {'listed': len(listed), 'live': sum(sel_f)}))
+        # an explicit `list X` is judged on X alone, whatever has been accumulated meanwhile
+        o, _ = s.cmd('list *')
+        canon = [x for x in o if outparse.classify(x)[0] == 'message']
+        if len(canon) == len(views) and not V:
+            for cmd in seq[-2:]:
+                if isinstance(cmd[1], list) and (cmd[1] or cmd[2]):
+                    o, e = s.cmd('list ' + cmd[0])
+                    got = {x for x in o if outparse.classify(x)[0] == 'message'}
+                    solo = RefAcc('*')
+                    solo.step(cmd)
+                    for v, line in zip(views, canon):
+                        want = solo.selects(v)
+                        if want is not None and want != (line in got):
+                            V.append(Violation('accumulate.list_query', case, {'query': cmd[0], 'message': v.line, 'expected_listed': want}))
+                            break
         n = sum(sel_f)
         return Eval(V, outcome=[reff.key()], nontrivial=0 < n < len(views) and len(case['seq']) >= 2,
                     transitions=len(case['seq']) + len(lines))
@@ -209,6 +239,10 @@ def gen_cases(tier):
         for n in range(0, L + 1):
             for seq in itertools.product(range(len(COMMANDS)), repeat=n):
                 yield {'init': init, 'seq': list(seq)}
+    for n in range(2, (2 if tier == 'quick' else L) + 1):
+        for seq in itertools.product(range(len(COMMANDS)), repeat=n):
+            if len(set(seq)) > 1:
+                yield {'init': '*', 'seq': list(seq), 'rotate': True}
 
 
 def run(run, tier, seed):
